@@ -47,6 +47,10 @@ def opt(x, f, if_none):
     return f(x)
 
 
+def step_is_(st, *steps):
+    return one_of(st.step, list(steps))
+
+
 def dest_inv(h):
     st, p = h.states, h._params
     fp, ap, pa = p.fp, p.acked_params, p.positive_ack_params
@@ -71,6 +75,7 @@ def dest_inv(h):
             opt(ap.procedure_timer, lambda t: And_(0 <= ap.nak_activity_counter, opt(
                 p.remote_cfg, lambda rc: ap.nak_activity_counter < rc.nak_timer_expiration_limit, False)), True)))),
         ("D6.timer_only_deferred", opt(ap.procedure_timer, lambda t: B(ap.deferred_lost_segment_detection_active), True)),
+        ("D14.metadata_only_not_before_metadata", Implies_(step_is_(st, STEP.IDLE, STEP.WAITING_FOR_METADATA), Not_(B(fp.metadata_only)))),
         ("D7.counters", And_(fp.progress >= 0, ap.last_start_offset >= 0, ap.last_start_offset <= ap.last_end_offset)),
     ]
     return L
@@ -675,3 +680,361 @@ C("_init_vfs_handling", arg_types={**SELF, "source_base_name": T.Str}, props=("C
   ],
   raises=[RaiseClause("vfs.truncate_race", FileNotFoundError, props=("C10",), modifies=["self._params.fp.file_name"])],
   effects={"vfs", "fault_cb"}, modular=False)
+
+
+# ==============================================================================================
+# C11: fresh per-transaction state (constructor, reset, transaction start)
+# ==============================================================================================
+def fresh_params(p, old_p=None):
+    """every per-transaction field has its constructor value; the parameter block and its tracker are new objects"""
+    fp, ap, pa, fin = p.fp, p.acked_params, p.positive_ack_params, p.finished_params
+    d = ap.lost_seg_tracker.lost_segments.d
+    fs = [
+        isnone(p.transaction_id), isnone(p.remote_cfg), isnone(p.check_timer), p.current_check_count == 0,
+        Not_(B(p.closure_requested)), eq(p.checksum_type, ChecksumType.NULL_CHECKSUM),
+        eq(fin.condition_code, CC.NO_ERROR), eq(fin.delivery_code, DeliveryCode.DATA_INCOMPLETE),
+        eq(fin.file_status, FileStatus.FILE_STATUS_UNREPORTED), isnone(fin.fault_location),
+        eq(p.completion_disposition, COMPLETED),
+        fp.progress == 0, Not_(B(fp.metadata_only)), isnone(fp.file_size), isnone(fp.file_size_eof),
+        Eq_(fp.file_name.p, EMPTY_PATH),
+        d.n == 0, z3.ForAll([TR.X], z3.Not(TR.view(d, TR.X))),
+        Not_(B(ap.metadata_missing)), ap.last_start_offset == 0, ap.last_end_offset == 0,
+        Not_(B(ap.deferred_lost_segment_detection_active)), isnone(ap.procedure_timer), ap.nak_activity_counter == 0,
+        isnone(pa.ack_timer), pa.ack_counter == 0,
+    ]
+    if old_p is not None:
+        fs += [p.oid != old_p.oid, ap.lost_seg_tracker.oid != old_p.acked_params.lost_seg_tracker.oid,
+               fin.oid != old_p.finished_params.oid]
+    return And_(*fs)
+
+
+C("_reset_internal", arg_types={**SELF, "clear_packet_queue": T.Bool}, props=("C11",), result=None,
+  requires=[], modifies=["self._params", "self.states.state", "self.states.step", "self._pdus_to_be_sent"],
+  ensures=[
+      Clause("C11.dest.reset_gives_fresh_parameter_block", lambda o, n, r: And_(
+          eq(n.self.states.state, IDLE), eq(n.self.states.step, STEP.IDLE), fresh_params(n.self._params, o.self._params)), ("C11",)),
+      Clause("C11.dest.queue_cleared_iff_asked", lambda o, n, r: And_(
+          Implies_(B(o.clear_packet_queue), n.self._pdus_to_be_sent.length() == 0),
+          Implies_(Not_(B(o.clear_packet_queue)), n.self._pdus_to_be_sent.length() == o.self._pdus_to_be_sent.length())), ("C11",)),
+      Clause("C11.dest.fresh_tracker_is_not_shared", lambda o, n, r: not any(
+          isinstance(v, SObj) and v is n.self._params.acked_params.lost_seg_tracker for v in n.interp.shared_objs.values()), ("C11",)),
+  ],
+  effects=set(), modular=False)
+
+
+C("_reset_nak_activity_parameters", arg_types=SELF, props=("C04",), result=None,
+  requires=REQ_INV + [("timer", lambda o: Not_(isnone(o.self._params.acked_params.procedure_timer)))],
+  modifies=["self._params.acked_params.nak_activity_counter", "self._params.acked_params.procedure_timer.expired"],
+  ensures=[Clause("C04.nak.progress_resets_count_and_timer", lambda o, n, r: And_(
+      n.self._params.acked_params.nak_activity_counter == 0,
+      opt(n.self._params.acked_params.procedure_timer, lambda t: Not_(B(t.expired)), False),
+      len(timer_resets(n)) == 1), ("C04",))],
+  effects={"timer"}, modular=False)
+
+
+# ==============================================================================================
+# C05 / C15 / C01: Metadata PDU handling
+# ==============================================================================================
+from spacepackets.cfdp import TlvType  # noqa: E402
+from stubs.world import WORLD as _W  # noqa: E402
+
+_cnt_memo = {}
+
+
+def mtu_count(L):
+    """cnt(i) = number of MESSAGE_TO_USER options among the first i options (recursive definition)"""
+    key = (L.a.get_id(),)
+    if key not in _cnt_memo:
+        f = z3.RecFunction(f"mtu_count{len(_cnt_memo)}", z3.IntSort(), z3.IntSort())
+        i = z3.Int("mc!i")
+        z3.RecAddDefinition(f, [i], z3.If(i <= 0, 0, f(i - 1) + z3.If(L.a[i - 1] == int(TlvType.MESSAGE_TO_USER), 1, 0)))
+        _cnt_memo[key] = (f, L)
+    return _cnt_memo[key][0]
+
+
+def _md_options(o):
+    opt_ = o.metadata_pdu.f.get("_options_tlv")
+    return opt_
+
+
+def _is_filtered(L, R, upto):
+    """R (list of (kind, identity) pairs) holds exactly the MESSAGE_TO_USER options among L[0:upto), in order"""
+    cnt = mtu_count(L)
+    q = z3.Int("mf!q")
+    return z3.And(R.n == cnt(upto), z3.ForAll([q], z3.Implies(
+        z3.And(0 <= q, q < upto, L.a[q] == int(TlvType.MESSAGE_TO_USER)),
+        z3.And(0 <= cnt(q), cnt(q) < cnt(upto), R.b[cnt(q)] == L.b[q], R.a[cnt(q)] == _W.msg_kind_of_value(L.b[q])))))
+
+
+def _md_loop_inv(I, pre, env, idx, n):
+    L = val(pre.metadata_pdu.f["_options_tlv"]).items if "_options_tlv" in pre.metadata_pdu.f else val(env.options).items
+    R = TR._as_pl(env.msgs_to_user_list)
+    cnt = mtu_count(L)
+    q = z3.Int("ml!q")
+    return [
+        ("filtered_so_far", _is_filtered(L, R, idx)),
+        ("count_monotone", z3.ForAll([q], z3.Implies(z3.And(0 <= q, q < idx), z3.And(cnt(q) <= cnt(q + 1), cnt(q + 1) <= cnt(idx))))),
+    ]
+
+
+def _md_ind_ok(o, n):
+    es = inds(n, "metadata_recv_indication")
+    if len(es) != 1:
+        return False
+    par = es[0]["args"][0]
+    m = o.metadata_pdu
+    if par.transaction_id is None:
+        return False
+    tid_ok = tid_eq(par.transaction_id, val(o.self._params.transaction_id))
+    names = And_(
+        (par.source_file_name is None) == (m.source_file_name is None) if not isinstance(m.source_file_name, SOpt) else True,
+        Eq_(par.source_file_name, m.source_file_name), Eq_(par.dest_file_name, m.dest_file_name),
+        Eq_(par.source_id.value, m.pdu_conf.source_entity_id.value))
+    size = Eq_(par.file_size, None) if m.source_file_name is None else Eq_(par.file_size, m.file_size)
+    optv = m.f.get("_options_tlv")
+    if optv is None:
+        msgs = True
+    else:
+        ol = val(optv)
+        if par.msgs_to_user is None:
+            msgs = isnone(optv)
+        else:
+            msgs = And_(Not_(isnone(optv)), _is_filtered(ol.items, TR._as_pl(par.msgs_to_user), ol.items.n))
+    return And_(tid_ok, names, size, msgs)
+
+
+MD_MOD = ["self._params.checksum_type", "self._params.closure_requested", "self._params.acked_params.metadata_missing",
+          "self._params.fp.metadata_only", "self._params.finished_params.delivery_code", "self._params.fp.file_name",
+          "self._params.fp.file_size", "self.states.step", "self.states.state", "self._params.finished_params.file_status",
+          "self._params.finished_params.condition_code", "self._params.completion_disposition", "self._params"]
+
+
+def _md_pre(o):
+    h = o.self
+    return And_(ne(h.states.state, IDLE), Not_(isnone(h._params.transaction_id)), Not_(isnone(h._params.remote_cfg)),
+                pdu_wf(o.metadata_pdu), step_is(h, STEP.IDLE, STEP.WAITING_FOR_METADATA),
+                # names come together (the library encodes a metadata-only PDU with both names empty)
+                (o.metadata_pdu.dest_file_name is None) == (o.metadata_pdu.source_file_name is None))
+
+
+def _md_setup(interp, roots):
+    m = roots["metadata_pdu"]
+    for k in ("source_file_name", "dest_file_name"):
+        m.f[k] = interp.force(m.f[k])
+
+
+C("_handle_metadata_packet", arg_types={**SELF, "metadata_pdu": T.Obj(MetadataPdu)}, props=("C05", "C15", "C01"), result=None,
+  setup=_md_setup,
+  requires=[("DestInvNoD1", lambda o: And_(*[f for l, f in dest_inv(o.self) if not l.startswith("D1.idle_iff")]))] + [("metadata_expected", _md_pre)],
+  modifies=MD_MOD,
+  ensures=[
+      Clause("C01.checksum_type_and_closure_from_metadata", lambda o, n, r: Implies_(ne(n.self.states.state, IDLE), And_(
+          Eq_(n.self._params.checksum_type, o.metadata_pdu.checksum_type),
+          iff(B(n.self._params.closure_requested), B(o.metadata_pdu.closure_requested)),
+          Not_(B(n.self._params.acked_params.metadata_missing)),
+          opt(n.self._params.fp.file_size, lambda s: Eq_(s, o.metadata_pdu.file_size), False))), ("C01", "C05")),
+      Clause("C05.destination_path_from_metadata", lambda o, n, r: Implies_(ne(n.self.states.state, IDLE), (
+          And_(B(n.self._params.fp.metadata_only), len(vfs_ops(n)) == 0, step_is(n.self, STEP.TRANSFER_COMPLETION),
+               eq(_fpar(n.self).delivery_code, DeliveryCode.DATA_COMPLETE))
+          if o.metadata_pdu.dest_file_name is None else
+          And_(Not_(B(n.self._params.fp.metadata_only)),
+               Eq_(n.self._params.fp.file_name.p, z3.If(
+                   fs_is_dir(FS0, path_of_str(o.metadata_pdu.dest_file_name.s)),
+                   path_join(path_of_str(o.metadata_pdu.dest_file_name.s), path_name(path_of_str(o.metadata_pdu.source_file_name.s))),
+                   path_of_str(o.metadata_pdu.dest_file_name.s))),
+               all(e["path"] is not None for e in vfs_ops(n)) and And_(*[
+                   Or_(Eq_(e["path"].p, path_of_str(o.metadata_pdu.dest_file_name.s)), Eq_(e["path"], n.self._params.fp.file_name))
+                   for e in vfs_ops(n)]),
+               step_is(n.self, STEP.RECEIVING_FILE_DATA, STEP.TRANSFER_COMPLETION)))), ("C05", "C02")),
+      Clause("C15.metadata_recv_indication_faithful", lambda o, n, r: Implies_(ne(n.self.states.state, IDLE), _md_ind_ok(o, n)), ("C15",)),
+      Clause("C15.no_other_output", lambda o, n, r: len(emitted(n)) == 0 and len(inds(n)) <= 1, ("C15",)),
+      Clause("C14.no_indication_without_transaction_id", lambda o, n, r: all(
+          getattr(e["args"][0], "transaction_id", e["args"][0]) is not None for e in inds(n)), ("C14",)),
+  ],
+  raises=[RaiseClause("vfs.truncate_race", FileNotFoundError, props=("C10",), modifies=MD_MOD)],
+  loops={0: LoopSpec(_md_loop_inv, modifies=[], props=("C15",), local_types={"msgs_to_user_list": T.PairList})},
+  effects={"vfs", "user", "fault_cb"}, modular=False)
+
+
+# ==============================================================================================
+# C06 / C18 at the handler level: lost segment bookkeeping while file data arrives
+# ==============================================================================================
+def trk(h):
+    return h._params.acked_params.lost_seg_tracker.lost_segments.d
+
+
+def tracker_inv(h):
+    """D7: the tracker is well-formed and every tracked byte lies below the end of the furthest segment seen"""
+    ap = h._params.acked_params
+    d = trk(h)
+    return z3.And(TR.tr_wf(d), z3.ForAll([TR.X], z3.Implies(TR.view(d, TR.X), z3.And(0 <= TR.X, TR.X < ap.last_end_offset))),
+                  0 <= ap.last_start_offset, ap.last_start_offset <= ap.last_end_offset)
+
+
+REQ_TRK = [("DestInvTracker", lambda o: tracker_inv(o.self))]
+for _lbl in ("DestInvTracker",):
+    pass
+
+
+def _lsh_gap(o):
+    return o.offset > o.self._params.acked_params.last_end_offset
+
+
+def _lsh_in_order(o):
+    return o.offset >= o.self._params.acked_params.last_end_offset
+
+
+def _lsh_retransmitted(o):
+    """the segment lies completely before the start of the most recent in-order segment"""
+    ap = o.self._params.acked_params
+    ls = z3.If(_lsh_in_order(o), o.offset, ap.last_start_offset)
+    return And_(o.offset + o.data_len <= ls, o.data_len > 0)
+
+
+def _seg_straddles(o):
+    d = trk(o.self)
+    k = z3.Int("ls!k")
+    a, b = o.offset, o.offset + o.data_len
+    return z3.Exists([k], z3.And(d.dom[k], k <= a, a < d.val[k], d.val[k] < b))
+
+
+def _seg_clean(o):
+    """the retransmitted segment lies within one tracked range or touches none (C18's removal precondition)"""
+    d = trk(o.self)
+    k = z3.Int("lc!k")
+    a, b = o.offset, o.offset + o.data_len
+    return z3.Or(z3.Exists([k], z3.And(d.dom[k], k <= a, b <= d.val[k])),
+                 z3.ForAll([TR.X], z3.Implies(z3.And(a <= TR.X, TR.X < b), z3.Not(TR.view(d, TR.X)))))
+
+
+def _one_nak(n, scope_end, reqs, h_old):
+    ps = emitted(n)
+    if len(ps) != 1 or ps[0].cls is not NakPdu:
+        return False
+    p = ps[0]
+    items = p.segment_requests.items
+    if not isinstance(items, list) or len(items) != len(reqs):
+        return False
+    return And_(Eq_(p.start_of_scope, 0), Eq_(p.end_of_scope, scope_end),
+                *[And_(Eq_(x[0], r[0]), Eq_(x[1], r[1])) for x, r in zip(items, reqs)],
+                eq(p.pdu_conf.direction, Direction.TOWARDS_SENDER),
+                Eq_(p.pdu_conf.transaction_seq_num.value, h_old._params.pdu_conf.transaction_seq_num.value))
+
+
+LSH_MOD = ["self._params.acked_params.lost_seg_tracker.lost_segments", "self._params.acked_params.last_start_offset",
+           "self._params.acked_params.last_end_offset", "self._pdus_to_be_sent", "self.states._num_packets_ready",
+           "self._params.pdu_conf.direction"]
+
+C("_lost_segment_handling", arg_types={**SELF, "offset": T.Int, "data_len": T.Int}, props=("C06", "C10"), result=None,
+  requires=REQ_INV + REQ_TRK + [("busy", lambda o: And_(ne(o.self.states.state, IDLE), Not_(isnone(o.self._params.remote_cfg)))),
+                                ("segment", lambda o: And_(o.offset >= 0, o.data_len >= 0))],
+  modifies=LSH_MOD,
+  ensures=[
+      Clause("C06.gap_is_recorded_exactly", lambda o, n, r: Implies_(_lsh_gap(o), z3.ForAll([TR.X], TR.view(trk(n.self), TR.X) == z3.Or(
+          TR.view(trk(o.self), TR.X), z3.And(o.self._params.acked_params.last_end_offset <= TR.X, TR.X < o.offset)))), ("C06",)),
+      Clause("C06.immediate_nak_requests_exactly_the_gap", lambda o, n, r: And_(
+          Implies_(And_(_lsh_gap(o), B(rcfg(o.self).immediate_nak_mode)), _one_nak(
+              n, o.offset + o.data_len, [(o.self._params.acked_params.last_end_offset, o.offset)], o.self)),
+          Implies_(Not_(And_(_lsh_gap(o), B(rcfg(o.self).immediate_nak_mode))), len(emitted(n)) == 0)), ("C06",)),
+      Clause("C06.extent_advances", lambda o, n, r: And_(
+          Implies_(_lsh_in_order(o), And_(n.self._params.acked_params.last_start_offset == o.offset,
+                                          n.self._params.acked_params.last_end_offset == o.offset + o.data_len)),
+          Implies_(Not_(_lsh_in_order(o)), unchanged(o, n, "_params.acked_params.last_start_offset",
+                                                     "_params.acked_params.last_end_offset"))), ("C06",)),
+      Clause("C06.retransmitted_segment_is_removed_exactly", lambda o, n, r: Implies_(And_(Not_(_lsh_gap(o)), _lsh_retransmitted(o), _seg_clean(o)),
+             z3.ForAll([TR.X], TR.view(trk(n.self), TR.X) == z3.And(TR.view(trk(o.self), TR.X), z3.Not(
+                 z3.And(o.offset <= TR.X, TR.X < o.offset + o.data_len))))), ("C06",)),
+      Clause("C06.otherwise_tracker_unchanged", lambda o, n, r: Implies_(And_(Not_(_lsh_gap(o)), Not_(_lsh_retransmitted(o))),
+             z3.ForAll([TR.X], TR.view(trk(n.self), TR.X) == TR.view(trk(o.self), TR.X))), ("C06",)),
+      Clause("inv.tracker", lambda o, n, r: Implies_(Or_(Not_(_lsh_retransmitted(o)), _seg_clean(o)), tracker_inv(n.self)), ("C06", "C10")),
+      Clause("queue.counter", lambda o, n, r: to_z3_int(n.self.states._num_packets_ready) == n.self._pdus_to_be_sent.length(), ("C06",)),
+      Clause("C06.no_other_output", lambda o, n, r: len(inds(n)) == 0 and len(fault_cbs(n)) == 0 and len(vfs_ops(n)) == 0, ("C06",)),
+  ],
+  raises=[RaiseClause("F5b.tracker_value_error_leaks", ValueError, when=lambda o: And_(_lsh_retransmitted(o), Not_(_seg_clean(o))),
+                      props=("C10",), modifies=LSH_MOD)],
+  effects=set(), modular=True)
+
+
+# ==============================================================================================
+# C05 / C15 / C14 / C01: File Data PDU handling
+# ==============================================================================================
+from spacepackets.cfdp.pdu import FileDataPdu as _FD  # noqa: E402
+
+
+def _fd_end(o):
+    return o.file_data_pdu.offset + o.file_data_pdu.file_data.length()
+
+
+def _fd_ind_ok(o, n):
+    sw = B(o.self.cfg.indication_cfg.file_segment_recvd_indication_required)
+    es = inds(n, "file_segment_recv_indication")
+    if len(es) == 0:
+        return Not_(sw)
+    if len(es) != 1 or len(inds(n)) != 1:
+        return False
+    par = es[0]["args"][0]
+    if par.transaction_id is None:
+        return False
+    return And_(sw, tid_eq(par.transaction_id, val(o.self._params.transaction_id)), Eq_(par.offset, o.file_data_pdu.offset),
+                Eq_(par.length, o.file_data_pdu.file_data.length()))
+
+
+def _writes(n):
+    return [e for e in vfs_ops(n) if e["op"] in ("write_data", "truncate_file", "create_file", "delete_file")]
+
+
+def _rejected(n):
+    return [e for e in n.trace if e["kind"] == "vfs_rejected"]
+
+
+def _fd_size_error(o):
+    return opt(o.self._params.fp.file_size_eof, lambda s: _fd_end(o) > s, False)
+
+
+FD_MOD = LSH_MOD + ["self._params.finished_params.file_status", "self._params.fp.progress", "self.states.step", "self.states.state",
+                    "self._params.finished_params.condition_code", "self._params.completion_disposition", "self._params"]
+
+
+def _fd_pre(o):
+    h = o.self
+    return And_(ne(h.states.state, IDLE), Not_(isnone(h._params.transaction_id)), Not_(isnone(h._params.remote_cfg)),
+                step_is(h, STEP.RECEIVING_FILE_DATA, STEP.RECV_FILE_DATA_WITH_CHECK_LIMIT_HANDLING, STEP.WAITING_FOR_MISSING_DATA),
+                pdu_wf(o.file_data_pdu), qempty(h))
+
+
+C("_handle_fd_pdu", arg_types={**SELF, "file_data_pdu": T.Obj(_FD)}, props=("C05", "C15", "C14", "C01"), result=None,
+  requires=REQ_INV + REQ_TRK + DEFAULT + [("receiving", _fd_pre)],
+  modifies=FD_MOD,
+  ensures=[
+      # C05: exactly one write, of this PDU's data at this PDU's offset, to the resolved destination path; nothing else
+      Clause("C05.one_write_at_offset_to_destination", lambda o, n, r: (
+          (lambda ws, rej: (len(ws) == 1 and ws[0]["op"] == "write_data" and And_(
+              Eq_(ws[0]["path"], o.self._params.fp.file_name), Eq_(ws[0]["data"], o.file_data_pdu.file_data),
+              Eq_(ws[0]["offset"], o.file_data_pdu.offset))) if not rej else len(ws) == 0)(_writes(n), _rejected(n))), ("C05", "C16")),
+      Clause("C05.no_other_filestore_access", lambda o, n, r: len(vfs_ops(n)) == len(_writes(n)), ("C05",)),
+      Clause("C15.file_segment_recv_indication_faithful", lambda o, n, r: _fd_ind_ok(o, n), ("C15",)),
+      Clause("C01.progress_covers_written_data", lambda o, n, r: (
+          (lambda rej: Implies_(ne(n.self.states.state, IDLE), (
+              And_(Implies_(Not_(_fd_size_error(o)), n.self._params.fp.progress == z3.If(
+                  _fd_end(o) >= o.self._params.fp.progress, _fd_end(o), o.self._params.fp.progress)),
+                   eq(_fpar(n.self).file_status, FileStatus.FILE_RETAINED))
+              if not rej else Eq_(n.self._params.fp.progress, o.self._params.fp.progress))))(_rejected(n))), ("C01", "C05")),
+      Clause("C14.file_size_error_declared", lambda o, n, r: (
+          (lambda rej: True if rej else And_(
+              Implies_(_fd_size_error(o), And_(declared(n, CC.FILE_SIZE_ERROR, "notice_of_cancellation_cb"),
+                                               eq(n.self._params.completion_disposition, CANCELED),
+                                               eq(_fpar(n.self).condition_code, CC.FILE_SIZE_ERROR),
+                                               step_is(n.self, STEP.TRANSFER_COMPLETION))),
+              Implies_(Not_(_fd_size_error(o)), no_fault(n))))(_rejected(n))), ("C14", "C01")),
+      Clause("C14.rejected_first_write_declares_filestore_rejection", lambda o, n, r: (
+          (lambda rej: True if not rej else And_(
+              Implies_(ne(_fpar(o.self).file_status, FileStatus.FILE_RETAINED), And_(
+                  declared(n, CC.FILESTORE_REJECTION, "notice_of_cancellation_cb"),
+                  eq(_fpar(n.self).file_status, FileStatus.DISCARDED_FILESTORE_REJECTION),
+                  eq(n.self._params.completion_disposition, CANCELED))),
+              Implies_(eq(_fpar(o.self).file_status, FileStatus.FILE_RETAINED), no_fault(n))))(_rejected(n))), ("C14", "C01")),
+      Clause("C06.only_acked_mode_tracks_segments", lambda o, n, r: Implies_(eq(mode(o.self), UNACK), And_(
+          len(emitted(n)) == 0, unchanged(o, n, "_params.acked_params.last_end_offset", "_params.acked_params.last_start_offset"))), ("C06",)),
+  ] + inv_clauses(("C05",)),
+  raises=[RaiseClause("F5b.tracker_value_error_leaks", ValueError, when=lambda o: eq(mode(o.self), ACK), props=("C10",), modifies=FD_MOD)],
+  effects={"vfs", "user", "fault_cb"}, modular=True)
